@@ -354,7 +354,13 @@ def _simmon(m, ob):
         r2 = simmon.explore_static({prop})
         res = dict(runs=res['runs'] + r2['runs'], failures=res['failures'] + r2['failures'])
     fails = [f for f in res['failures'] if f[0] in (prop, 'RUN')]
-    return dict(violated=bool(fails), bounded=True,
+    # recorded known findings of the bounded monitor: identified by property, scenario and the text of the failing oracle
+    import json as _json, os as _os
+    kf = _json.load(open(_os.path.join(_os.path.dirname(_os.path.dirname(_os.path.abspath(__file__))), 'known_findings.json')))
+    bk = [b for b in kf.get('bounded_findings', []) if b['property'] == prop]
+    known = [f for f in fails if any(f[1].startswith(b['scenario'] + '/') and b['contains'] in f[2] for b in bk)]
+    fails = [f for f in fails if f not in known]
+    return dict(violated=bool(fails), bounded=True, known_findings=sorted(set(f"{f[1].split('/')[0]}: {f[2]}" for f in known)),
                 scope=f"{res['runs']} monitored simulations: {len(simmon.SCENARIOS)} observation plans x {len(simmon.WORKFLOWS)} workflow shapes x "
                       f"{{queue, batch}} on 4 heterogeneous machines",
                 failures=len(fails), observed=[f"{f[1]}: {f[2]}" for f in fails[:5]])
